@@ -12,7 +12,7 @@ def hdr():
 
 
 def run(ctx):
-    n = {"quick": 300, "thorough": 6000}[ctx.tier]
+    n = {"quick": 300, "thorough": 2000}[ctx.tier]
 
     def stages(ctx, mult, suffix, off):
         rep = _extra_replace()
